@@ -15,6 +15,7 @@
 package main
 
 import (
+	"bytes"
 	"bufio"
 	"encoding/json"
 	"fmt"
@@ -548,7 +549,7 @@ func (rp *replayer) primeInRange(r *row) {
 	for _, p := range r.Primes {
 		in[p] = true
 	}
-	rd := &detReader{r: hx.Rng(rp.seed, fmt.Sprintf("rpir/%d/%d", r.Start, r.Len)), left: 1 << 22}
+	rd := &detReader{r: hx.Rng(rp.seed, fmt.Sprintf("rpir/%d/%d", r.Start, r.Len)), left: 1 << 17}
 	hit := map[int64]bool{}
 	for i := 0; i < 24; i++ {
 		var p *big.Int
@@ -559,7 +560,7 @@ func (rp *replayer) primeInRange(r *row) {
 		}
 		rp.res.Eval(fmt.Sprintf("RandomPrimeInRange/%d/%d", r.Start, r.Len))
 		if err != nil {
-			rp.bad("RandomPrimeInRange", fmt.Sprintf("found no prime in 4 MiB of randomness (%v) although the interval holds %d", err, len(r.Primes)), args)
+			rp.bad("RandomPrimeInRange", fmt.Sprintf("found no prime in 128 KiB of randomness (%v) although the interval holds %d", err, len(r.Primes)), args)
 			break
 		}
 		if !in[num(p)] {
@@ -648,6 +649,8 @@ func (rc *recorder) emit(m hx.M) {
 	if err != nil {
 		hx.Fatal("marshal record: %v", err)
 	}
+	// an empty result list (every call of the batch failed) must reach the trace as [], not as null
+	b = bytes.ReplaceAll(b, []byte(":null"), []byte(":[]"))
 	rc.out.Write(b)
 	rc.out.WriteByte('\n')
 	rc.n++
@@ -988,7 +991,7 @@ func record(a *hx.Args, res *hx.Result) {
 			if !intervalHasPrime(start, ln) {
 				continue
 			}
-			rd := &detReader{r: hx.Rng(a.Seed, fmt.Sprintf("rec-rpir/%d/%d", start, ln)), left: 1 << 22}
+			rd := &detReader{r: hx.Rng(a.Seed, fmt.Sprintf("rec-rpir/%d/%d", start, ln)), left: 1 << 17}
 			var ps []int64
 			panicked, failed := false, false
 			for i := 0; i < 8; i++ {
@@ -1454,7 +1457,7 @@ func large(a *hx.Args, res *hx.Result) {
 			if ln < 12 {
 				ln = 12 // enough candidates for a prime to exist with overwhelming probability
 			}
-			rd := &detReader{r: rng, left: 1 << 26}
+			rd := &detReader{r: rng, left: 20000 * int((ln+7)/8)} // 20,000 candidates: a prime is missed with probability < e^-50
 			var p *big.Int
 			var err error
 			pn, msg := hx.Try(func() { p, err = verifx.RandomPrimeInRange(rd, start, ln) })
